@@ -340,6 +340,12 @@ def run(ctx):
         raise Inconclusive('no path reached the decoder')
     ctx.vacuity_witness('some path reaches the assertion', okp[0][0])
     ctx.extra['violations_by_rule'] = seen
+    # "visible to that stage": the stage analysis feeding the visibility field, on call sequences shared between entry points of
+    # different stages (the full set of nesting contexts is C03's)
+    from harness import c03 as C03
+    vis_seen = {}
+    C03.sequences(ctx, 2, 2, vis_seen)
+    ctx.extra['visibility_subcheck'] = vis_seen
     ctx.extra['entry_kinds_per_path'] = kinds
     ctx.extra['generator_refusals'] = panics
     # whole-pipeline translator validation on the repository's own fixtures
@@ -348,5 +354,10 @@ def run(ctx):
         ctx.differential(open(f).read(), {})
 
 
+def native(ctx):
+    from harness import c03 as C03
+    C03.native(ctx)
+
+
 if __name__ == '__main__':
-    sys.exit(main('C02', run))
+    sys.exit(main('C02', run, native))
